@@ -212,7 +212,50 @@ func (c *Ctx) childAlways(g *aliasGraph, child *ssa.Function, mk *ssa.MakeChan) 
 
 // ---- TOK-9 / TOK-10: request slots ----
 
+// pingSlotCapacity: the ping slot is one slot. Ping withdraws "its" callback
+// with a receive that takes whatever is at the head, toOffline and
+// termCallbacks answer one entry, onPINGRESP answers the head: all of that is
+// right only while there can be no second entry. The channel stored into
+// Client.pingAck is made with capacity exactly 1.
+func (c *Ctx) pingSlotCapacity() {
+	nc := c.Fn("TOK-9", "newClient")
+	if nc == nil {
+		return
+	}
+	a := c.acc("TOK-9", nc, "pingAck-has-capacity-1")
+	found := false
+	for _, f := range c.funcs {
+		for _, b := range f.Blocks {
+			for _, ins := range b.Instrs {
+				st, ok := ins.(*ssa.Store)
+				if !ok || pathx.RoleOfAddr(st.Addr).Key() != "Client.pingAck" {
+					continue
+				}
+				found = true
+				mk, isMk := stripConv(st.Val).(*ssa.MakeChan)
+				if !isMk {
+					a.failAt(c.P.Pos(st.Pos()), "Client.pingAck is assigned %s, not a channel made on the spot", Expr(st.Val))
+					continue
+				}
+				if isK(mk.Size, 1) {
+					a.pass()
+				} else {
+					a.failAt(c.P.Pos(st.Pos()), "the ping slot is made with capacity %s, want 1: with room for a second callback Ping's withdrawal, toOffline and termCallbacks take or answer the wrong entry — a Ping gets another Ping's answer, or none", Expr(mk.Size))
+				}
+			}
+		}
+	}
+	if !found {
+		// (a composite literal: the field is set in the literal's store sequence, which the loop above sees as well)
+		a.failAt(c.P.Pos(nc.Pos()), "no assignment of Client.pingAck found")
+	}
+	a.done(1, "make(chan …, 1)")
+}
+
 func (c *Ctx) tok9(which map[string]bool) {
+	if which["TOK-9"] {
+		c.pingSlotCapacity()
+	}
 	start := c.Fn("TOK-9", "(*unorderedTxs).startTx")
 	end := c.Fn("TOK-9", "(*unorderedTxs).endTx")
 	n := 0
